@@ -60,6 +60,15 @@ class Native(object):
         self.fn = fn
 
 
+class ModelValue(object):
+    """Marker base of checker-side value classes (e.g. a model of the fixed-width integers): the evaluated code may call such a class as a
+    constructor, reach it through `x.__class__`, and test `isinstance(x, cls)`."""
+
+
+def _is_model_class(t):
+    return isinstance(t, type) and (issubclass(t, Obj) or issubclass(t, ModelValue))
+
+
 class PyRaise(NotConst):
     """The evaluated code raises a Python exception (still 'not a constant' for callers that do not model exceptions)."""
 
@@ -150,6 +159,12 @@ class Evaluator(object):
             return Opaque('%s.%s' % (v.what, n.attr), n)
         if isinstance(v, Native) and n.attr in getattr(v, 'attrs', {}):
             return v.attrs[n.attr]             # a modelled callable with data attributes (e.g. the `limit` of a modular integer type)
+        if n.attr == '__class__' and isinstance(v, ModelValue):
+            return type(v)
+        if isinstance(v, ModelValue) and n.attr in getattr(v, 'model_attrs', ()):
+            return getattr(v, n.attr)
+        if _is_model_class(v) and n.attr in getattr(v, 'model_attrs', ()):
+            return getattr(v, n.attr)
         raise NotConst('attribute %s of %r' % (n.attr, type(v).__name__))
 
     def ev_List(self, n, loc):
@@ -347,6 +362,8 @@ class Evaluator(object):
                     out.append(self.ev(lam.body, l2))
                 return out
             for k_, v_ in list(kw.items()):
+                if isinstance(v_, ast.FunctionDef):
+                    kw[k_] = (lambda *a, _f=v_: self.call_user(_f, list(a)))
                 if isinstance(v_, Opaque) and isinstance(v_.node, ast.Lambda):
                     lam_, loc_ = v_.node, dict(loc)
                     kw[k_] = (lambda *a, _l=lam_, _c=loc_: self.ev(_l.body, dict(_c, **dict(zip([p.arg for p in _l.args.args], a)))))
@@ -378,8 +395,13 @@ class Evaluator(object):
                 return tgt.fn(*args, **kw)
             if isinstance(tgt, ast.FunctionDef):
                 return self.call_user(tgt, args, kw)
-            if isinstance(tgt, type) and issubclass(tgt, Obj):
-                return tgt(*args, **kw)                # a model class of the checker (usable with isinstance and as constructor)
+            if _is_model_class(tgt):
+                try:
+                    return tgt(*args, **kw)            # a model class of the checker (usable with isinstance and as constructor)
+                except NotConst:
+                    raise
+                except Exception as e:
+                    raise PyRaise('constructor %s failed: %r' % (f.id, e), type(e).__name__, e)
         if isinstance(f, ast.Attribute):
             recv = self.ev(f.value, loc)
             if isinstance(recv, Obj) and f.attr in recv.__dict__.get('_methods', {}):
@@ -411,12 +433,19 @@ class Evaluator(object):
                     raise PyRaise('pop failed: %r' % (e,), type(e).__name__, e)
             if isinstance(recv, Opaque):
                 return Opaque('%s.%s(...)' % (recv.what, f.attr), n)
-        if not isinstance(f, (ast.Name, ast.Attribute)):
+        if not isinstance(f, (ast.Name, ast.Attribute)) or (isinstance(f, ast.Attribute) and f.attr == '__class__'):
             tgt_ = self.ev(f, loc)
             if isinstance(tgt_, Native):
                 return tgt_.fn(*args, **kw)
             if isinstance(tgt_, ast.FunctionDef):
                 return self.call_user(tgt_, args, kw)
+            if _is_model_class(tgt_):
+                try:
+                    return tgt_(*args, **kw)
+                except NotConst:
+                    raise
+                except Exception as e:
+                    raise PyRaise('constructor failed: %r' % (e,), type(e).__name__, e)
         if self.opaque_names:
             return Opaque('call:%s' % ast.unparse(f), n)
         raise NotConst('call %s' % ast.unparse(f))
@@ -535,6 +564,21 @@ class Evaluator(object):
                     continue
                 except _Break:
                     break
+        elif isinstance(st, ast.Delete):
+            for t in st.targets:
+                if isinstance(t, ast.Subscript) and not isinstance(t.slice, ast.Slice):
+                    o = self.ev(t.value, loc)
+                    k = self.ev(t.slice, loc)
+                    if not isinstance(o, (list, dict)):
+                        raise NotConst('del on %s' % type(o).__name__)
+                    try:
+                        del o[self._hashable(k) if isinstance(o, dict) else k]
+                    except Exception as e:
+                        raise PyRaise('del failed: %r' % (e,), type(e).__name__, e)
+                elif isinstance(t, ast.Name) and t.id in scope:
+                    del scope[t.id]
+                else:
+                    raise NotConst('del target')
         elif isinstance(st, ast.Break):
             raise _Break()
         elif isinstance(st, ast.Continue):
